@@ -3,8 +3,9 @@
 Families
   SL   isal_deflate_stateless, one call
   ST   isal_deflate, one call with end_of_stream=1 and ample output space
-  TBL  table lemma: every literal / length / distance code of hufftables_default / hufftables_static is
-       decoded back by the reference decoder from the table's own deflate header
+  (the table lemma of DESIGN C01 is not built: literal codes of the static table are exercised through the
+   guided decoder for all 256 values per position; length/distance tables and the default table's literal
+   codes are not decided)
 Query id: <fam>/<table>/n<N>/<wrap>/f<flush>[e<eos>]/a<avail_out>[/h<hist_bits>]/<class vector>[/exact]
 """
 from vlib.core import Query, Plan
@@ -136,8 +137,8 @@ def plan(tier, ctx):
                         "code_length_classes": "static {8,9}; default %s; all vectors swept + OTHER queries proving the set complete" % DEFAULT_CLASSES,
                         "calls": "exactly one API call per query"},
                 stubs=["wmemset: 3-line loop (CBMC has no model)",
-                       "write_bits interposed in the igzip_base.c translation unit: assume(count == class) then the repo's write_bits (deflate_shim.h); "
-                       "a case split over code lengths, complete by the OTHER queries",
+                       "get_lit_code calls for data literals in the igzip_base.c translation unit routed (preprocessor only) through a wrapper that calls the "
+                       "repo's get_lit_code and then assumes len == class (deflate_shim.h): a case split over code lengths, proved complete by the OTHER queries",
                        
                        "x86 intrinsic headers skipped when compiling igzip_base.c for CBMC (no intrinsic is used)"],
                 assumptions=["guided oracle: block types / literal-only tokens implied by the table choice are asserted (STRUCT messages); "
@@ -149,5 +150,6 @@ def plan(tier, ctx):
                          "every assembly body (igzip_body/finish/icf/encode_df/proc_heap .asm): only the _base variant is decided",
                          "inputs > 4 bytes on the Huffman path, > 6 bytes on the stored path: no window wrap, no >64 KiB stored splitting (C10b covers the arithmetic)",
                          "custom Huffman tables (C18), dictionaries, IGZIP_HIST_SIZE=8K / LONGER_HUFFTABLE builds",
-                         "multi-call streaming (C07)"],
+                         "multi-call streaming (C07)", "default (dynamic) table with n >= 1 in streaming mode (only the empty stream is decided)",
+                         "table lemma for len_table/dist_table/dcodes and hufftables_default.lit_table"],
                 trusted_base=["cbmc 6.11 C front end + SAT back end", "spec/rfc1951.h", "harness/deflate_common/deflate_common.h (RFC 1950/1952 layouts)"])
